@@ -22,27 +22,44 @@ def sh(cmd, **kw):
     return subprocess.run(cmd, shell=True, capture_output=True, text=True, **kw)
 
 
-assert sh("git -C /repo diff --quiet").returncode == 0, "repo dirty"
 meta = dict(property=prop, slug=slug, needs=open(f"{dst}/notes.txt").read() if os.path.exists(f"{dst}/notes.txt") else "")
-r0 = sh(f"cd /tmp && /venv/bin/python {dst}/demo.py")
-meta["demo_without_patch_exit"] = r0.returncode
-ap = sh(f"git -C /repo apply {dst}/patch.diff")
-if ap.returncode != 0:
-    print("patch does not apply:", ap.stderr)
-    sys.exit(2)
+# 1. demo and the repository's test suite in a scratch worktree (does not block /repo)
+wt = f"/tmp/evalwt_{os.getpid()}"
+sh(f"git -C /repo worktree add --detach {wt} HEAD")
 try:
-    r1 = sh(f"cd /tmp && /venv/bin/python {dst}/demo.py")
+    env = dict(os.environ, PYTHONPATH=wt)
+    r0 = sh(f"cd /tmp && /venv/bin/python {dst}/demo.py", env=env)
+    meta["demo_without_patch_exit"] = r0.returncode
+    ap = sh(f"git -C {wt} apply {dst}/patch.diff")
+    if ap.returncode != 0:
+        print("patch does not apply:", ap.stderr)
+        sys.exit(2)
+    r1 = sh(f"cd /tmp && /venv/bin/python {dst}/demo.py", env=env)
     meta["demo_with_patch_exit"] = r1.returncode
-    t = sh("cd /repo && /venv/bin/python -m pytest -q -p no:cacheprovider --timeout=900 tests 2>&1 | tail -3")
-    meta["tests_with_patch"] = t.stdout.strip().splitlines()[-1] if t.stdout.strip() else t.stderr[-200:]
-    c = sh(f"/verif/check {prop} --tier {tier}")
-    out = c.stdout
-    meta["check_exit"] = c.returncode
-    meta["check_violation_lines"] = [l for l in out.splitlines() if l.startswith("VIOLATION") or l.startswith("  signature")][:8]
-    meta["check_summary"] = [l for l in out.splitlines() if l.startswith(prop + " ")][-1:] + [l for l in out.splitlines() if "HARNESS-PROBLEM" in l][:4]
-    meta["ran"] = f"git -C /repo apply {dst}/patch.diff; ./check {prop} --tier {tier}; git -C /repo checkout -- ."
+    if "--skip-tests" in sys.argv:
+        meta["tests_with_patch"] = json.load(open(f"{dst}/meta.json")).get("tests_with_patch", "") if os.path.exists(f"{dst}/meta.json") else ""
+    else:
+        t = sh(f"cd {wt} && /venv/bin/python -m pytest -q -p no:cacheprovider --timeout=900 tests 2>&1 | tail -3", env=env)
+        meta["tests_with_patch"] = t.stdout.strip().splitlines()[-1] if t.stdout.strip() else t.stderr[-200:]
 finally:
-    sh("git -C /repo checkout -- . && git -C /repo clean -fdq")
+    sh(f"git -C /repo worktree remove --force {wt}; git -C /repo worktree prune")
+# 2. the check against /repo with the patch applied (exclusive use of /repo), undone straight afterwards
+import fcntl
+
+with open("/tmp/verif_repo.lock", "w") as lock:
+    fcntl.flock(lock, fcntl.LOCK_EX)
+    assert sh("git -C /repo diff --quiet").returncode == 0, "repo dirty"
+    ap = sh(f"git -C /repo apply {dst}/patch.diff")
+    assert ap.returncode == 0, ap.stderr
+    try:
+        c = sh(f"/verif/check {prop} --tier {tier}")
+        out = c.stdout
+        meta["check_exit"] = c.returncode
+        meta["check_violation_lines"] = [l for l in out.splitlines() if l.startswith("VIOLATION") or l.startswith("  signature")][:8]
+        meta["check_summary"] = [l for l in out.splitlines() if l.startswith(prop + " ")][-1:] + [l for l in out.splitlines() if "HARNESS-PROBLEM" in l][:4]
+        meta["ran"] = f"git -C /repo apply {dst}/patch.diff; ./check {prop} --tier {tier}; git -C /repo checkout -- ."
+    finally:
+        sh("git -C /repo checkout -- . && git -C /repo clean -fdq")
 meta["detected"] = meta.get("check_exit") == 1
 meta["confirmed"] = meta["demo_without_patch_exit"] == 0 and meta.get("demo_with_patch_exit", 0) != 0 and "346 passed" in meta.get("tests_with_patch", "")
 json.dump(meta, open(f"{dst}/meta.json", "w"), indent=1)
